@@ -984,6 +984,169 @@ def rule_range_order(chk, idx):
 
 
 # ---------------------------------------------------------------------------------------------------
+# C11.sentinel-guard: a date rebuilt from the fields of a date object that may be the min-value sentinel
+
+DATE_CTORS = {'safe_create_from_min_value', 'safe_create_from_value', 'safe_create_date_resolve_overflow', 'datetime'}
+# sites confirmed by reading where the rebuilt object cannot be the sentinel (frozen; anything else must be guarded)
+SENTINEL_EXEMPT = {
+    ('ChineseHolidayParser', '_match2date'):
+        'the date comes from a holiday function evaluated for the same year that is stamped on it; the only Chinese holiday '
+        'function returning the sentinel (easter_day) is not reachable from the holiday patterns (triaged: no entity)',
+}
+
+
+def _is_min_value(e):
+    return isinstance(e, ast.Attribute) and e.attr == 'min_value'
+
+
+def sentinel_sites(fn):
+    """[(node, kind, root text)]: constructor calls that take month and day but not the year from one object, and
+    .replace(year/month/day=...) on a local that may hold the result of safe_create* (which yields the sentinel)"""
+    defs = {}
+    for n in own_walk(fn):
+        if isinstance(n, ast.Assign):
+            for t in n.targets:
+                if isinstance(t, ast.Name):
+                    defs.setdefault(t.id, []).append(n.value)
+
+    def may_be_sentinel(name, seen=()):
+        if name in seen:
+            return False
+        for v in defs.get(name, []):
+            if isinstance(v, ast.Call) and callee_name(v) in DATE_CTORS and callee_name(v) != 'datetime':
+                return True
+            if _is_min_value(v):
+                return True
+            if isinstance(v, ast.Name) and may_be_sentinel(v.id, seen + (name,)):
+                return True
+        return False
+
+    out = []
+    for c in own_walk(fn):
+        if not isinstance(c, ast.Call):
+            continue
+        name = callee_name(c)
+        if name in DATE_CTORS:
+            roots = {}
+            for a_ in list(c.args) + [k.value for k in c.keywords]:
+                if isinstance(a_, ast.Attribute) and a_.attr in ('year', 'month', 'day'):
+                    roots.setdefault(ast.unparse(a_.value), set()).add(a_.attr)
+            for r, fields in sorted(roots.items()):
+                if {'month', 'day'} <= fields and 'year' not in fields:
+                    out.append((c, 're-stamp', r))
+        elif name == 'replace' and isinstance(c.func, ast.Attribute) and isinstance(c.func.value, ast.Name) \
+                and c.keywords and {k.arg for k in c.keywords} <= {'year', 'month', 'day'}:
+            x = c.func.value.id
+            if may_be_sentinel(x):
+                out.append((c, 'replace', x))
+    return out, defs
+
+
+def sentinel_guarded(fn, node, root, defs, par):
+    """a validity test of `root` (or of a local it was copied from / to) dominates the site"""
+    aliases = {root}
+    for _ in range(3):
+        for k, vals in defs.items():
+            for v in vals:
+                if isinstance(v, ast.Name) and (v.id in aliases or k in aliases):
+                    aliases.add(k)
+                    aliases.add(v.id)
+
+    def tests_valid(t, positive):
+        """does the truth (positive) / falsity (not positive) of t imply the object is not the sentinel?"""
+        if isinstance(t, ast.UnaryOp) and isinstance(t.op, ast.Not):
+            return tests_valid(t.operand, not positive)
+        if isinstance(t, ast.BoolOp):
+            if isinstance(t.op, ast.And) and positive:
+                return any(tests_valid(v, True) for v in t.values)
+            if isinstance(t.op, ast.Or) and not positive:
+                return any(tests_valid(v, False) for v in t.values)
+            return False
+        if isinstance(t, ast.Call) and callee_name(t) == 'is_valid_datetime' and t.args and ast.unparse(t.args[0]) in aliases:
+            return positive
+        if isinstance(t, ast.Compare) and len(t.ops) == 1:
+            a_, b_ = t.left, t.comparators[0]
+            hit = (ast.unparse(a_) in aliases and _is_min_value(b_)) or (ast.unparse(b_) in aliases and _is_min_value(a_))
+            if hit and isinstance(t.ops[0], ast.NotEq):
+                return positive
+            if hit and isinstance(t.ops[0], ast.Eq):
+                return not positive
+        return False
+
+    cur = node
+    while cur is not fn and cur in par:
+        p_ = par[cur]
+        if isinstance(p_, ast.If):
+            if any(cur is x for x in p_.body) and tests_valid(p_.test, True):
+                return True
+            if any(cur is x for x in p_.orelse) and tests_valid(p_.test, False):
+                return True
+        for fld in ('body', 'orelse', 'finalbody'):
+            block = getattr(p_, fld, None)
+            if isinstance(block, list) and any(cur is x for x in block):
+                for st in block:
+                    if st is cur:
+                        break
+                    if isinstance(st, ast.If) and st.body and isinstance(st.body[-1], (ast.Return, ast.Raise, ast.Continue)) \
+                            and not st.orelse and tests_valid(st.test, False):
+                        return True
+        cur = p_
+    return False
+
+
+SENTINEL_CONTROL = """
+def set_date(self, original_date, year=-1):
+    value = DateUtils.safe_create_from_min_value(year=self.year, month=original_date.month, day=original_date.day)
+    return value
+"""
+
+
+def rule_sentinel(chk, idx):
+    rid = 'C11.sentinel-guard'
+    chk.rule(rid, 'a date rebuilt from the month/day of another date object, or shifted by .replace(), is dominated by a validity '
+                  'test of that object (is_valid_datetime / comparison with min_value): the 0001-01-01 sentinel must not become '
+                  'a value', floor=3, control=True)
+    cfn = ast.parse(SENTINEL_CONTROL).body[0]
+    csites, cdefs = sentinel_sites(cfn)
+    chk.control(rid, len(csites) == 1 and not sentinel_guarded(cfn, csites[0][0], csites[0][2], cdefs, parents_of(cfn)))
+    n = 0
+    for mod in pkg_mods(idx):
+        if '.resources' in mod.name:
+            continue
+        for m, cls, fn in idx.functions(mod):
+            sites, defs = sentinel_sites(fn)
+            if not sites:
+                continue
+            par = parents_of(fn)
+            counts = {}
+            for node, kind, root in sorted(sites, key=lambda x: (x[0].lineno, x[0].col_offset)):
+                n += 1
+                construct = '%s.%s' % (cls.name if cls else '', fn.name)
+                detail = '%s of a possibly unresolved date' % ('month/day re-stamped with another year' if kind == 're-stamp'
+                                                               else 'field(s) replaced')
+                counts[detail] = counts.get(detail, 0) + 1
+                if counts[detail] > 1:
+                    detail += ' (#%d)' % counts[detail]
+                key = (cls.name if cls else '', fn.name)
+                chk.consulted(mod.path)
+                if sentinel_guarded(fn, node, root, defs, par):
+                    chk.ok(rid, mod.path, construct, detail + ': validity test dominates', node.lineno)
+                elif key in SENTINEL_EXEMPT:
+                    chk.exempt(rid, mod.path, construct, SENTINEL_EXEMPT[key], detail, node.lineno)
+                else:
+                    chk.bad(rid, mod.path, construct, detail + ': no validity test',
+                            '`%s` rebuilds a date from `%s`, which can be the min-value sentinel (0001-01-01: month 1, day 1 are '
+                            'valid), without a dominating `is_valid_datetime(%s)` / `%s != DateUtils.min_value` test: an '
+                            'impossible date becomes a value such as <year>-01-01 / 0002-01-01 instead of "not resolved"'
+                            % (ast.unparse(node)[:90], root, root, root), node.lineno)
+    if n < 3:
+        raise AnalysisError('only %d date re-stamp / replace sites found' % n)
+    dc = idx.cls(PKG + '.utilities.DateContext')
+    if not any(sentinel_sites(f)[0] for f in dc.methods.values()):
+        raise AnalysisError('DateContext: the function that re-stamps a date with the context year was not found')
+
+
+# ---------------------------------------------------------------------------------------------------
 
 def run(chk):
     chk.explanation = ('writer/reader agreement between the 22 date-time parser classes and the merged parser (types dispatched, '
@@ -1002,6 +1165,7 @@ def run(chk):
     rule_type_flow(chk, idx, merged_parsers)
     rule_pm_range(chk, idx)
     rule_range_order(chk, idx)
+    rule_sentinel(chk, idx)
     chk.assume('extractor results carry the type given by extractor_type_name or by the explicit third argument of '
                'merge_all_tokens; DateTimeParseResult(source) copies source.type, which each parser checks against its '
                'parser_type_name; a datetime object always formats to a valid calendar date / clock time')
